@@ -103,6 +103,7 @@ func LoadWorld(patterns ...string) (*World, error) {
 		}
 	}
 	w.bindNames()
+	w.extOnce()
 	return w, nil
 }
 
